@@ -82,6 +82,34 @@ Definition lv_empty (v : lval) : bool := fst v =? 0.
 Definition lv_eq (a b : lval) : bool := (fst a =? fst b) && (snd a =? snd b).   (* Go == *)
 Definition lv_fold (a b : lval) : bool := fst a =? fst b.                         (* strings.EqualFold *)
 
+(* PersistOptions.CheckLabelProperty(typ, labels): some configured entry of the property equals (key and value, both ==) some
+   label of the store.  `props` are the configured entries of one property type (reject-leader). *)
+Definition check_label_property (props : list (Z * lval)) (labels : list (Z * lval)) : bool :=
+  existsb (fun cfg => existsb (fun l => (fst l =? fst cfg) && lv_eq (snd l) (snd cfg)) labels) props.
+
+Lemma check_label_property_spec props labels :
+  check_label_property props labels = true <->
+  exists cfg l, In cfg props /\ In l labels /\ fst l = fst cfg /\ lv_eq (snd l) (snd cfg) = true.
+Proof.
+  unfold check_label_property. rewrite existsb_exists. split.
+  - intros (cfg & Hc & H). apply existsb_exists in H as (l & Hl & H). apply andb_true_iff in H as [H1 H2].
+    apply Z.eqb_eq in H1. exists cfg, l. auto.
+  - intros (cfg & l & Hc & Hl & H1 & H2). exists cfg. split; [exact Hc|]. apply existsb_exists. exists l.
+    split; [exact Hl|]. rewrite H1, Z.eqb_refl. exact H2.
+Qed.
+
+(* in particular the ORDER of the configured entries and of the store's labels is irrelevant, and a later entry with the same key
+   as an earlier, non-matching one still counts *)
+Lemma check_label_property_later_entry k v1 v2 labels :
+  In (k, v2) labels -> lv_eq v2 v2 = true -> check_label_property [(k, v1); (k, v2)] labels = true.
+Proof.
+  intros Hin Hr. apply check_label_property_spec. exists (k, v2), (k, v2). cbn. auto.
+Qed.
+
+(* every store's s_reject flag is what the specification says for the configured entries *)
+Definition reject_flags_ok (props : list (Z * lval)) (stores : list store) : bool :=
+  forallb (fun s => Bool.eqb (s_reject s) (check_label_property props (s_labels s))) stores.
+
 Fixpoint find_store (stores : list store) (id : Z) : option store :=
   match stores with
   | [] => None
